@@ -11,6 +11,8 @@ var fileNameSets = [][]string{
 	{"gontainer.yaml"},
 	{"b.yaml", "a.yaml"},
 	{"z.yaml", "sub/c.yaml", "A.yaml", "m-n.yaml"},
+	{"f7.yaml", "f1.yaml", "sub/f3.yaml", "F2.yaml", "f-5.yaml", "f6.yaml", "f4.yaml"},
+	{"f10.yaml", "f9.yaml", "f1.yaml", "f11.yaml", "f2.yaml", "sub/f3.yaml", "f12.yaml", "f4.yaml", "F5.yaml", "f6.yaml", "f-7.yaml", "f8.yaml"},
 }
 
 // SplitParts distributes a configuration over k fragments such that merging them in order
@@ -161,7 +163,7 @@ func PureParts(r *rand.Rand, c *cfg.Config, k int) []cfg.Config {
 	return parts
 }
 
-// Split renders the configuration as 1 (mode 0), 2 (mode 1), 4 (mode 2) or 4 single-section (mode 3) files; each file is its own -i pattern, in order.
+// Split renders the configuration as 1 (mode 0), 2 (mode 1), 4 (mode 2), 4 single-section (mode 3), 7 (mode 4) or 12 (mode 5) files; each file is its own -i pattern, in order.
 func Split(r *rand.Rand, c *cfg.Config, mode int) []cfg.File {
 	if mode == 3 {
 		// four files, three of them holding a single section each
@@ -173,7 +175,11 @@ func Split(r *rand.Rand, c *cfg.Config, mode int) []cfg.File {
 		}
 		return files
 	}
-	names := fileNameSets[mode%len(fileNameSets)]
+	set := mode
+	if mode >= 4 {
+		set = mode - 1
+	}
+	names := fileNameSets[set%len(fileNameSets)]
 	parts := SplitParts(r, c, len(names))
 	files := make([]cfg.File, len(names))
 	for i := range names {
